@@ -1,6 +1,6 @@
 (* C10 — property theorems only (statements + [exact]); the proofs are in Proofs.v, Jump.v, Fast.v. *)
 From Coq Require Import ZArith List Bool.
-From V.C10 Require Import Model Machine Proofs Jump Fast.
+From V.C10 Require Import Model Machine Proofs Jump Fast Refine.
 Import ListNotations.
 Local Open Scope Z_scope.
 
@@ -30,6 +30,27 @@ Theorem C10_jump_into_push_data_rejected : forall c p d, 0 <= d -> clen c <= U64
   boundary c p -> p < clen c -> p < d < p + 1 + push_len (cnth c p) -> valid_jumpdest c d = false.
 Proof. exact jump_into_push_data_rejected. Qed.
 Print Assumptions C10_jump_into_push_data_rejected.
+
+(* Machine level: the interpreter loop (table lookup, stack bounds, constant and dynamic gas, memory
+   expansion, execute, pc update) run with the implementation layer and the same loop run with the
+   specification layer -- the Yellow-Paper word operations and ANY jump test that accepts exactly the
+   JUMPDEST bytes at instruction boundaries -- end in the same outcome (halt kind, return data, gas left,
+   fault) with the same maximal stack height, for every jump table, code, call data, gas amount and
+   step bound.  The stack/memory/pc handling is common to both runs; it is tied to the code by the
+   correspondence run and searched against the independent reference machine of the harness. *)
+Theorem C10_machine_refines : forall jd2 P c input,
+  clen c <= U64 ->
+  (forall d, 0 <= d -> (jd2 c d = true <-> d < clen c /\ cnth c d = 91 /\ boundary c d)) ->
+  forall fuel gas,
+    call impl_op valid_jumpdest P c input fuel gas = call spec_op jd2 P c input fuel gas.
+Proof. exact machine_refines. Qed.
+Print Assumptions C10_machine_refines.
+
+(* Every stack slot stays a 256-bit word along a run. *)
+Theorem C10_stack_slots_are_words : forall jd2 P c input st st',
+  Forall word (s_stk st) -> step spec_op jd2 P c input st = Next st' -> Forall word (s_stk st').
+Proof. exact spec_step_keeps_words. Qed.
+Print Assumptions C10_stack_slots_are_words.
 
 (* The correspondence run evaluates the machine with mask-based reductions; it is the same function. *)
 Theorem C10_eval_is_model : forall P c input fuel gas, run_fast P c input fuel gas = run_impl P c input fuel gas.
@@ -61,3 +82,13 @@ Proof.
   cbv zeta. repeat (match goal with |- _ /\ _ => split end); try (vm_compute; reflexivity); try (vm_compute; discriminate).
   change 3 with (0 + 1 + push_len (cnth [97; 91; 91; 91; 96] 0)). apply boundary_next; [apply boundary_0|vm_compute; reflexivity].
 Qed.
+
+(* A run: PUSH1 3; PUSH1 5; SUB; PUSH1 0; MSTORE; PUSH1 32; PUSH1 0; RETURN under a table with every row
+   defined at 3 gas: returns the word 5 - 3 = 2 (first popped minus second), 8 instructions * 3 gas + 3 gas of
+   memory expansion used. *)
+Example C10_example_run :
+  let P := mkParams (map (fun _ => mkRow true 3 0 1024) (seq 0 256)) 1 in
+  let c := [96; 3; 96; 5; 3; 96; 0; 82; 96; 32; 96; 0; 243] in
+  clen c <= U64 /\
+  run_impl P c [] 100 1000 = (OReturn (repeat 0 31 ++ [2]) (1000 - 8 * 3 - 3), 2).
+Proof. cbv zeta. split; vm_compute; [discriminate|reflexivity]. Qed.
